@@ -309,12 +309,17 @@ def run(pid, tier, seed, replay, t0, evidence_path):
         drv.close()
 
     # ---- 5. verdict -----------------------------------------------------------
+    rdir = os.path.join(VERIF, 'replays', pid)
+    if os.path.isdir(rdir) and not replay:
+        for f in os.listdir(rdir):
+            if f.startswith('violation_'):
+                os.remove(os.path.join(rdir, f))
     known = load_known(pid)
     violations = []
     known_hit = {}
     for mm in ctx.mismatches:
         sig = prop.signature(mm) if hasattr(prop, 'signature') else mm.name
-        k = next((k for k in known if k['signature'] == sig), None)
+        k = next((k for k in known if sig == k.get('signature') or sig in k.get('signatures', [])), None)
         if k is not None:
             known_hit.setdefault(k['id'], k)
             continue
